@@ -103,6 +103,18 @@ Section Framed.
              if existsb is_final o then o else o ++ session k b tr'
     end.
 
+  (* a conversation: the caller's read() and write() calls in any order.  write() = encode + write_all;
+     the caller's packets (the ISI of handshake() included) are given by their frames.
+     (true, _) marks what a write() call put on the wire. *)
+  Inductive uop := URead | UWrite (f : bytes).
+  Fixpoint conv (ops : list uop) (buf : bytes) (tr : list rev) : list (bool * out) :=
+    match ops with
+    | [] => []
+    | URead :: t => let '(o, b, tr') := read buf tr in
+                    map (pair false) o ++ (if existsb is_final o then [] else conv t b tr')
+    | UWrite f :: t => (true, Wrote f) :: conv t buf tr
+    end.
+
   (* per-frame expectation, by decoding the frame in isolation *)
   Definition expected_frame (f : bytes) : list out :=
     match parse (tl f) with
@@ -129,6 +141,7 @@ Section Framed.
 End Framed.
 
 Arguments Wrote {packet}. Arguments Ret {packet}.
+
 Arguments RDecodeErr {packet}. Arguments RFrameErr {packet}. Arguments RBadVersion {packet}.
 Arguments RIo {packet}. Arguments RTimeout {packet}. Arguments RDisconnected {packet}.
 Arguments RPanic {packet}. Arguments RBlocked {packet}. Arguments RPacket {packet}.
